@@ -1,9 +1,124 @@
+/-
+BDS 6,0 heading and speed report: panic-freedom (C01), serialisation (C07) and physical ranges
+(C08) of `Bds60.read`, for every reader state (= every payload).
+Single-field facts are complete kernel enumerations of the field's code space (the i16 operations
+`value as i16 - 1024`, `(value as i16 - 512) * 32`, `value as i16 * 32`, `i16::abs` never overflow);
+`mach` given the IAS has no arithmetic and is proved by case analysis for every IAS.
+-/
 import Rs1090.Proofs.Decode.Wp
+import Rs1090.Proofs.Decode.Ser
+import Rs1090.Proofs.Decode.OkAnd
 import Rs1090.Model.Decode.Bds60
 namespace Rs1090.Model.Bds60
-open Rs1090 Rs1090.Model
+open Rs1090 Rs1090.Model Rs1090.Props.C13
 
-/-- STUB proof for the STUB reader (replaced together with the model) -/
-theorem read_noPanic : NoPanic read := by unfold read; exact noPanic_fail _
+/-! ### per-field facts -/
+
+/-- accepted heading: `0 ≤ n/512 < 360`; `value as i16 - 1024` does not overflow -/
+theorem heading_spec : ∀ st sg v, sg < 2 ^ 1 → v < 2 ^ 10 →
+    (heading st sg v).okAnd (optAll fun n => decide (0 ≤ n) && decide (n < 360 * 512)) = true := by
+  intro st sg v hsg
+  cases st <;> rcases bit_cases hsg with rfl | rfl <;> revert v <;> (refine enum 10 ?_; decide +kernel)
+
+/-- accepted IAS: 1 … 500 kt -/
+theorem ias_spec : ∀ st v, v < 2 ^ 10 →
+    (ias st v).okAnd (optAll fun i => decide (1 ≤ i) && decide (i ≤ 500)) = true := by
+  intro st
+  cases st <;> (refine enum 10 ?_; decide +kernel)
+
+/-- accepted Mach code: 1 … 250, i.e. `0 < Mach ≤ 1`, whatever the IAS -/
+theorem mach_spec (iasV : Option Nat) (st : Bool) (v : Nat) :
+    (mach iasV st v).okAnd (optAll fun m => decide (1 ≤ m) && decide (m ≤ 250)) = true := by
+  unfold mach
+  split
+  · split <;> rfl
+  · split
+    · rfl
+    · rename_i h
+      have hb : 1 ≤ v ∧ v ≤ 250 := by
+        simp only [machEq0, machGt1, Bool.or_eq_true, beq_iff_eq, decide_eq_true_eq, not_or] at h
+        omega
+      have hok : (Outcome.ok (some v)).okAnd (optAll fun m => decide (1 ≤ m) && decide (m ≤ 250)) = true := by
+        simp only [Outcome.okAnd, optAll, Bool.and_eq_true, decide_eq_true_eq]; exact hb
+      cases iasV with
+      | none => exact hok
+      | some i =>
+        simp only []
+        split
+        · rfl
+        · split
+          · rfl
+          · exact hok
+
+/-- accepted vertical rate: a multiple of 32 ft/min within ±6000 -/
+theorem vertical_spec : ∀ st sg v, sg < 2 ^ 1 → v < 2 ^ 9 →
+    (vertical st sg v).okAnd
+      (optAll fun x => decide (x % 32 = 0) && decide (-6000 ≤ x) && decide (x ≤ 6000)) = true := by
+  intro st sg v hsg
+  cases st <;> rcases bit_cases hsg with rfl | rfl <;> revert v <;> (refine enum 9 ?_; decide +kernel)
+
+theorem readVertical_wp (Q : Option Int → Rd → Prop) (s : Rd)
+    (h : ∀ o s', optAll (fun x => decide (x % 32 = 0) && decide (-6000 ≤ x) && decide (x ≤ 6000)) o = true → Q o s') :
+    wp readVertical Q s := by
+  unfold readVertical
+  wp_run
+  apply wp_lift_okAnd (vertical_spec _ _ _ (by assumption) (by assumption)); intro o ho
+  exact h _ _ ho
+
+/-! ### the reader -/
+
+theorem read_good (s : Rd) : wp read (fun r _ => SerGood [] r ∧ RangeGood r) s := by
+  unfold read
+  wp_run
+  apply wp_lift_okAnd (heading_spec _ _ _ (by assumption) (by assumption)); intro hdg hhdg
+  wp_run
+  apply wp_lift_okAnd (ias_spec _ _ (by assumption)); intro iasV _
+  wp_run
+  apply wp_lift_okAnd (mach_spec iasV _ _); intro m hm
+  wp_run
+  apply readVertical_wp; intro baro s1 hbaro
+  wp_run
+  apply readVertical_wp; intro inertial s2 hinertial
+  wp_run
+  constructor
+  · apply serGood_of
+    · keys_decide
+    · keys_decide
+    · fields_cases
+      · exact wf_of_map_some hv (fun _ => rfl)
+      · exact wf_of_map_some hv (fun _ => rfl)
+      · exact wf_of_map_some hv (fun _ => rfl)
+      · exact wf_of_map_some hv (fun _ => rfl)
+      · exact wf_of_map_some hv (fun _ => rfl)
+  · apply rangeGood_of
+    range_cases
+    · exact holds_of_map_some _ hhdg hv (fun n hn => by
+        simp only [Bool.and_eq_true, decide_eq_true_eq] at hn
+        exact holds_range_jrat _ _ _ _ _ (by decide) (by omega) (by simp; omega))
+    · obtain ⟨a, _, rfl⟩ := map_eq_some hv
+      exact holds_nonneg_jnat a
+    · cases m with
+      | none => cases hv
+      | some a =>
+        simp only [optAll, Bool.and_eq_true, decide_eq_true_eq] at hm
+        injection hv with hv
+        subst hv
+        simp [Constraint.holds, jrat, ratIn]
+        omega
+    · exact holds_of_map_some _ hbaro hv (fun x hx => by
+        simp only [Bool.and_eq_true, decide_eq_true_eq] at hx
+        exact holds_multiple_jint _ _ _ _ hx.1.1 (by omega) (by omega))
+    · exact holds_of_map_some _ hinertial hv (fun x hx => by
+        simp only [Bool.and_eq_true, decide_eq_true_eq] at hx
+        exact holds_multiple_jint _ _ _ _ hx.1.1 (by omega) (by omega))
+
+theorem read_noPanic : NoPanic read :=
+  fun s => wp_mono (read_good s) (fun _ _ _ => trivial)
+
+theorem read_serGood (s : Rd) : wp read (fun r _ => SerGood [] r) s :=
+  wp_mono (read_good s) (fun _ _ h => h.1)
+
+theorem read_rangeGood (s : Rd) : wp read (fun r _ => RangeGood r) s :=
+  wp_mono (read_good s) (fun _ _ h => h.2)
 
 end Rs1090.Model.Bds60
